@@ -59,7 +59,7 @@ def run(tier, seed):
                 sv = np.asarray(sint, dtype=float)
                 want = sum(c[i] * np.exp(-c[i + 4] * sv * sv) for i in range(4)) + c[8]
                 rel = 1e-9 if not (hasattr(sint, "dtype") and sint.dtype == np.float32) else 1e-5
-                if got.shape != np.shape(want) or not np.all(np.isfinite(got)) or np.abs(got - want).max() > rel * max(1.0, float(np.abs(want).max())):
+                if got.shape != np.shape(want) or not np.all(np.isfinite(got)) or not (np.abs(got - want).max() <= rel * max(1.0, float(np.abs(want).max()))):
                     v.violation("FormFactor(%s, %r) = %s for an integer-typed argument, sum a_i exp(-b_i s^2) + c = %s" %
                                 (el, sint, got.tolist(), np.asarray(want).tolist()), desc)
                     break
@@ -70,7 +70,7 @@ def run(tier, seed):
             got = float(structure.FormFactor(el, s))
             nev += 1
             vals.append(want)
-            if abs(got - want) > 1e-9 * max(1.0, abs(want)):
+            if not (abs(got - want) <= 1e-9 * max(1.0, abs(want))):
                 bad = "FormFactor(%s, %.4f) = %.12g, sum a_i exp(-b_i s^2) + c = %.12g" % (el, s, got, want)
                 break
         if bad:
@@ -89,7 +89,7 @@ def run(tier, seed):
                 sv = np.asarray(sint, dtype=float)
                 want = sum(c[i] * np.exp(-c[i + 4] * sv * sv) for i in range(4)) + c[8]
                 rel = 1e-9 if not (hasattr(sint, "dtype") and sint.dtype == np.float32) else 1e-5
-                if got.shape != np.shape(want) or not np.all(np.isfinite(got)) or np.abs(got - want).max() > rel * max(1.0, float(np.abs(want).max())):
+                if got.shape != np.shape(want) or not np.all(np.isfinite(got)) or not (np.abs(got - want).max() <= rel * max(1.0, float(np.abs(want).max()))):
                     v.violation("FormFactor(%s, %r) = %s for an integer-typed argument, sum a_i exp(-b_i s^2) + c = %s" %
                                 (el, sint, got.tolist(), np.asarray(want).tolist()), desc)
                     break
@@ -102,7 +102,7 @@ def run(tier, seed):
             wantarr = np.array([sum(c[i] * math.exp(-c[i + 4] * s * s) for i in range(4)) + c[8] for s in keep])
             if not np.array_equal(sg_, keep):
                 v.violation("FormFactor(%s, array) modifies the array of sin(theta)/lambda values it is given" % el, desc)
-            elif arr1.shape != wantarr.shape or np.abs(arr1 - wantarr).max() > 1e-9 * max(1.0, np.abs(wantarr).max()) or not np.array_equal(arr1, arr2):
+            elif arr1.shape != wantarr.shape or not (np.abs(arr1 - wantarr).max() <= 1e-9 * max(1.0, np.abs(wantarr).max())) or not np.array_equal(arr1, arr2):
                 v.violation("FormFactor(%s, array of s) differs from the values for the individual s" % el, desc)
             # the caller refills the SAME array object (a reused buffer): the answer is for the present contents
             sg_[:] = sg_[::-1] * 0.5
@@ -111,7 +111,7 @@ def run(tier, seed):
             sg_ += 0.125
             arr4 = np.asarray(structure.FormFactor(el, sg_), dtype=float)
             want4 = np.array([sum(c[i] * math.exp(-c[i + 4] * s * s) for i in range(4)) + c[8] for s in sg_])
-            if np.abs(arr3 - want3).max() > 1e-9 * max(1.0, np.abs(want3).max()) or np.abs(arr4 - want4).max() > 1e-9 * max(1.0, np.abs(want4).max()):
+            if not (np.abs(arr3 - want3).max() <= 1e-9 * max(1.0, np.abs(want3).max())) or not (np.abs(arr4 - want4).max() <= 1e-9 * max(1.0, np.abs(want4).max())):
                 v.violation("FormFactor(%s, array of s) answers for the earlier contents of an array that was refilled in place" % el, desc)
         except Exception as ex:
             v.violation("FormFactor(%s, array of s) raised %r" % (el, ex), desc)
